@@ -8,6 +8,6 @@ require (
 	golang.org/x/text v0.21.0
 )
 
-require golang.org/x/image v0.23.0 // indirect
+require golang.org/x/image v0.23.0
 
 replace github.com/go-text/typesetting => /repo
